@@ -224,8 +224,16 @@ func configCase(w *gal.Writer, ic types.ImageConfiguration, baseIC *types.ImageC
 			if len(m.Layers) != wantLayers {
 				implViolation("layer-count", map[string]any{"ic": in, "layers": len(m.Layers), "want": wantLayers})
 			}
-			// manifest annotations mirror the labels
-			if fmt.Sprint(m.Annotations) != fmt.Sprint(rc.Config.Labels) && !(len(m.Annotations) == 0 && len(rc.Config.Labels) == 0) {
+			// manifest annotations carry every label (a base image's own manifest
+			// annotations are merged in by go-containerregistry, so only containment;
+			// equality on an empty base)
+			bad := baseIC == nil && len(m.Annotations) != len(rc.Config.Labels)
+			for k, v := range rc.Config.Labels {
+				if av, ok := m.Annotations[k]; !ok || av != v {
+					bad = true
+				}
+			}
+			if bad {
 				implViolation("manifest-annotations-differ-from-labels", map[string]any{"ic": in, "annotations": m.Annotations, "labels": rc.Config.Labels})
 			}
 		}
@@ -324,6 +332,9 @@ func genIC(r *gal.Rand) types.ImageConfiguration {
 	ic.Environment = genEnv(r)
 	ic.Annotations = genAnn(r)
 	ic.VCSUrl = gal.Pick(r, vcsForms)
+	if r.Chance(3, 5) { // mostly inside the envelope of c12_config_mapping_partial: no revision to record
+		ic.VCSUrl = gal.Pick(r, []string{"", "https://github.com/x/y"})
+	}
 	return ic
 }
 
